@@ -17,4 +17,17 @@ for f in sorted(glob.glob("/repo/atomica/*.py")):
     normalise.normalise(tree)
     out[os.path.basename(f)[:-3]] = {qn: alpha.local_shapes(fn) for qn, fn in alpha.functions_of(tree)}
 json.dump(out, open(alpha.TABLE, "w"), indent=0, sort_keys=True)
+# comparison orientation and if/else polarity of the reviewed tree (after N1-N4, N7), the reference of normalise.orient
+cmp = {}
+for f in sorted(glob.glob("/repo/atomica/*.py")):
+    tree = ast.parse(open(f).read())
+    normalise.normalise(tree)
+    tab = {}
+    for qn, fn in normalise.functions_of(tree):
+        c, t = normalise.shapes_of(fn)
+        if c or t:
+            tab[qn] = {"cmp": c, "tests": t}
+    cmp[os.path.basename(f)[:-3]] = tab
+json.dump(cmp, open(os.path.join(os.path.dirname(alpha.TABLE), "comparisons.json"), "w"), indent=0, sort_keys=True)
+print(sum(len(x["cmp"]) for v in cmp.values() for x in v.values()), "comparisons,", sum(len(x["tests"]) for v in cmp.values() for x in v.values()), "if/else tests")
 print(sum(len(v) for v in out.values()), "functions,", sum(len(x) for v in out.values() for x in v.values()), "locals")
